@@ -225,7 +225,7 @@ def translate():
 # ----------------------------------------------------------------------------------------
 THEOREMS = [
     # whole files: independent parser o writer, for every system (induction over atoms / columns / styles)
-    'C07.data_parse_write', 'C07.data_wellformed', 'C07.dump_parse_write', 'C07.poscar_parse_write',
+    'C07.data_parse_write', 'C07.data_wellformed', 'C07.data_unwrap_positions', 'C07.dump_parse_write', 'C07.poscar_parse_write',
     'C07.table_parse_write',
     # their building blocks that carry a clause of the property on their own
     'C07.layoutOf_styleCols', 'C07.atom_tables_agree', 'C07.vel_tables_agree', 'C07.atom_row', 'C07.vel_row',
@@ -233,7 +233,7 @@ THEOREMS = [
     # numbers
     'C07.fmtFixed_error', 'C07.parseNum_fmtFixed', 'C07.fixedVal_error', 'C07.fmtExp_error', 'C07.parseNum_fmtExp',
     'C07.expVal_error', 'C07.expOf_spec', 'C07.parseNum_fmtNum', 'C07.parseInt_intTok',
-    'C07.dump_bbox', 'C07.dump_bbox_corners', 'C07.dump_bbox_lo_lt_hi',
+    'C07.dump_bbox', 'C07.dump_bbox_corners', 'C07.dump_bbox_lo_lt_hi', 'C07.dump_bounds_error', 'C07.dump_bounds_error_fixed',
     'C07.poscar_scale', 'C07.info_names_used',
     'C07.atom_style_columns_match_lammps', 'C07.velocity_columns_match_lammps', 'C07.dump_columns_match_lammps',
     'C07.unit_styles_match_lammps',
